@@ -1,5 +1,1645 @@
-//! C14 - monitor not built yet.
+//! C14 - Service keys confine callers to their database; reads never write.
+//!
+//! Monitors (DESIGN.md C14), all over an in-process `build_router(AppState)` on a recording
+//! object store, driven with `tower::ServiceExt::oneshot`:
+//!  * `matrix`: the completely enumerated request matrix (caller x path x encoding x method) with
+//!    the uniform-rejection, no-effect, confinement, reads-never-write and relational
+//!    (B keyed / B re-keyed / B unbound / B absent) non-interference oracles;
+//!  * `rnw`: every Read-labelled method under every caller that may call it, on databases in
+//!    seven lifecycle states, with a drain for spawned tasks;
+//!  * `hist`: generated histories of create / close / open / connect / set_api_key /
+//!    remove_api_key / restart / crash-restart with a model of the bindings, probed after every
+//!    step, the same history replayed with B re-keyed and with B absent;
+//!  * `guards`: the documented provisioning guards that keep the two tiers apart.
+//!
+//! The method table (names + Read|Mutating) is read at run time from the `parse` functions of
+//! `anda_db_server/src/api/mod.rs` of the tree the harness was built against.
+
+use anda_db_server::{AppState, build_router};
+use std::collections::{BTreeMap, BTreeSet};
+use v_server::*;
+use vcore::{Rng, Run, Stats, Value, json};
+
+// ---------------------------------------------------------------------------------------------
+// callers, paths, entries
+
+#[derive(Clone, Debug)]
+struct Caller {
+    /// stable kind: used in signatures and counters
+    kind: &'static str,
+    label: String,
+    header: Option<Vec<u8>>,
+    /// the credential the documented parsing (`Authorization: Bearer <key>`, exact prefix,
+    /// visible ASCII) extracts from the header
+    token: Option<String>,
+    /// holds no credential that some B-mode makes valid: replayed in every world and compared
+    relational: bool,
+}
+
+fn callers(k: &Keys, stored_hash_of_a: &str) -> Vec<Caller> {
+    let mut v = vec![];
+    let mut add = |kind: &'static str, label: &str, header: Option<Vec<u8>>, token: Option<&str>, rel: bool| {
+        v.push(Caller {
+            kind,
+            label: label.to_string(),
+            header,
+            token: token.map(|s| s.to_string()),
+            relational: rel,
+        })
+    };
+    add("none", "no Authorization header", None, None, true);
+    let (a, adm) = (&k.a, &k.admin);
+    add("malformed", "Basic <key A>", Some(format!("Basic {a}").into_bytes()), None, true);
+    add("malformed", "bearer <admin> (lower-case scheme)", Some(format!("bearer {adm}").into_bytes()), None, true);
+    add("malformed", "Bearer<key A> (no space)", Some(format!("Bearer{a}").into_bytes()), None, true);
+    add("malformed", "Bearer  <admin> (two spaces)", Some(format!("Bearer  {adm}").into_bytes()), Some(&format!(" {adm}")), true);
+    add("malformed", "<key A> (no scheme)", Some(a.clone().into_bytes()), None, true);
+    add("malformed", "Bearer <key A>_ (trailing space)", Some(format!("Bearer {a} ").into_bytes()), Some(&format!("{a} ")), true);
+    add("malformed", "Bearer _ (empty token)", Some(b"Bearer ".to_vec()), Some(""), true);
+    let mut nonutf = b"Bearer \xff\xfe".to_vec();
+    nonutf.extend_from_slice(adm.as_bytes());
+    add("malformed", "Bearer <0xFF 0xFE><admin> (not UTF-8)", Some(nonutf), None, true);
+    add("malformed", "Bearer<TAB><key A>", Some(format!("Bearer\t{a}").into_bytes()), None, true);
+    add("garbage", "unknown key", Some(bearer("zz-not-a-key-41c7")), Some("zz-not-a-key-41c7"), true);
+    let dummy = "anda-db-server-timing-equalization-dummy";
+    add("garbage", "the timing-equalization dummy", Some(bearer(dummy)), Some(dummy), true);
+    add("garbage", "stored SHA3 hash of key A", Some(bearer(stored_hash_of_a)), Some(stored_hash_of_a), true);
+    add("admin", "admin key", Some(bearer(&k.admin)), Some(&k.admin), false);
+    add("key_a", "key of A", Some(bearer(&k.a)), Some(&k.a), true);
+    add("key_b", "key of B", Some(bearer(&k.b)), Some(&k.b), false);
+    add("key_b_other", "the key B carries in the re-keyed world", Some(bearer(&k.b_alt)), Some(&k.b_alt), false);
+    add("revoked", "first key of A (rotated away)", Some(bearer(&k.a_old)), Some(&k.a_old), true);
+    add("revoked", "key of C (removed)", Some(bearer(&k.c_removed)), Some(&k.c_removed), true);
+    add("key_closed_db", "key of the closed database D", Some(bearer(&k.d)), Some(&k.d), true);
+    v
+}
+
+#[derive(Clone, Debug, PartialEq, Eq)]
+enum PathClass {
+    Root,
+    /// routed to `POST /{db_name}` with this percent-decoded name
+    Db(String),
+    /// routed, but the segment does not decode to UTF-8: answered by the path extractor
+    BadUtf8,
+    /// matches no route: the router's own fallback, never authenticated
+    NoRoute,
+}
+
+#[derive(Clone, Debug)]
+struct PathSpec {
+    label: &'static str,
+    uri: String,
+    class: PathClass,
+}
+
+fn paths(n: &Names) -> Vec<PathSpec> {
+    let db = |label: &'static str, uri: String, decoded: String| PathSpec { label, uri, class: PathClass::Db(decoded) };
+    let (a, b) = (&n.a, &n.b);
+    vec![
+        PathSpec { label: "root", uri: "/".into(), class: PathClass::Root },
+        db("A", format!("/{a}"), a.clone()),
+        db("B", format!("/{b}"), b.clone()),
+        db("C (key removed)", format!("/{}", n.c), n.c.clone()),
+        db("primary", format!("/{}", n.primary), n.primary.clone()),
+        db("D (closed, key kept)", format!("/{}", n.d), n.d.clone()),
+        db("missing", format!("/{}", n.missing), n.missing.clone()),
+        db("A with a query string naming B", format!("/{a}?db_name={b}&name={b}"), a.clone()),
+        db("percent-encoded ..", "/%2E%2E".into(), "..".into()),
+        db("..", "/..".into(), "..".into()),
+        db("A/../B percent-encoded", format!("/{a}%2F..%2F{b}"), format!("{a}/../{b}")),
+        db("B + NUL", format!("/{b}%00"), format!("{b}\0")),
+        db("B + space", format!("/{b}%20"), format!("{b} ")),
+        db("/B percent-encoded", format!("/%2F{b}"), format!("/{b}")),
+        db("A upper-case", format!("/{}", a.to_uppercase()), a.to_uppercase()),
+        db("B percent-encoded letter by letter", format!("/{}", b.bytes().map(|c| format!("%{c:02X}")).collect::<String>()), b.clone()),
+        db("very long name", format!("/{}", "q".repeat(6000)), "q".repeat(6000)),
+        PathSpec { label: "invalid UTF-8 segment", uri: "/%FF%FE".into(), class: PathClass::BadUtf8 },
+        PathSpec { label: "A/ (trailing slash)", uri: format!("/{a}/"), class: PathClass::NoRoute },
+        PathSpec { label: "B/collection", uri: format!("/{b}/{}", n.coll(b)), class: PathClass::NoRoute },
+    ]
+}
+
+const UNKNOWN_METHODS: [&str; 6] = ["", "nope", "db.drop", "INFO", "doc.get ", "db.list\u{0}"];
+
+#[derive(Clone, Debug)]
+struct Entry {
+    method: String,
+    aim: RootAim,
+    oversize: bool,
+}
+
+fn entries(table: &MethodTable, class: &PathClass) -> Vec<Entry> {
+    let mut v = vec![];
+    let mut names = table.all_names();
+    names.extend(UNKNOWN_METHODS.iter().map(|s| s.to_string()));
+    for m in names {
+        v.push(Entry { method: m.clone(), aim: RootAim::Natural, oversize: false });
+        if *class == PathClass::Root && root_params(&m, &Names::pair(0), RootAim::Other).is_some() && m != "info" && m != "db.list" {
+            v.push(Entry { method: m, aim: RootAim::Other, oversize: false });
+        }
+    }
+    v.push(Entry { method: "info".into(), aim: RootAim::Natural, oversize: true });
+    v
+}
+
+fn build_req(n: &Names, c: &Caller, p: &PathSpec, enc: Enc, e: &Entry) -> Req {
+    let m = e.method.as_str();
+    let params = if e.oversize {
+        json!({"junk": "x".repeat(MAX_BODY + 4096)})
+    } else {
+        match &p.class {
+            PathClass::Root => root_params(m, n, e.aim)
+                .or_else(|| db_params(m, &Target::of(n, None)))
+                .unwrap_or_else(|| json!({})),
+            PathClass::Db(name) => db_params(m, &Target::of(n, Some(name)))
+                .or_else(|| root_params(m, n, RootAim::Natural))
+                .unwrap_or_else(|| json!({})),
+            _ => db_params(m, &Target::of(n, None))
+                .or_else(|| root_params(m, n, RootAim::Natural))
+                .unwrap_or_else(|| json!({})),
+        }
+    };
+    Req { path: p.uri.clone(), auth: c.header.clone(), enc, method: e.method.clone(), params }
+}
+
+/// What the documented precedence rules (auth.rs rules 2-4; rule 1 = keyless mode is not used
+/// by the worlds) say about this caller on this path.
+#[derive(Clone, Debug, PartialEq, Eq)]
+enum Expect {
+    /// the uniform 401
+    Reject,
+    /// answered from the path alone, identically for every caller
+    PathOnly,
+    Admin,
+    /// `Principal::Database` for this database
+    Db(String),
+}
+
+fn expect(w: &World, c: &Caller, p: &PathClass) -> Expect {
+    match p {
+        PathClass::BadUtf8 | PathClass::NoRoute => return Expect::PathOnly,
+        _ => {}
+    }
+    let Some(tok) = &c.token else { return Expect::Reject };
+    if *tok == w.spec.keys.admin {
+        return Expect::Admin;
+    }
+    match p {
+        PathClass::Db(name) if w.bound_key(name) == Some(tok.as_str()) => Expect::Db(name.clone()),
+        _ => Expect::Reject,
+    }
+}
+
+// ---------------------------------------------------------------------------------------------
+// a world plus its cached admin view
+
+struct Lab {
+    w: World,
+    /// the view after the previous request
+    last: Snap,
+    /// the last view that carried the heavy part, and how many requests ago it was taken
+    last_heavy: Snap,
+    since_heavy: u32,
+    builds: u64,
+}
+
+impl Lab {
+    async fn new(spec: WorldSpec) -> Lab {
+        let mut w = World::build(spec).await;
+        if w.spec.life != Life::Warm {
+            // load every collection (the admin view over HTTP reads each of them) so that the
+            // matrix measures requests on loaded handles; cold handles are the rnw monitor's
+            w.full_snapshot().await;
+        }
+        let last = w.snap(true).await;
+        Lab { w, last_heavy: last.clone(), last, since_heavy: 0, builds: 1 }
+    }
+    /// As built: collections of a reopened / restarted world are not loaded.
+    async fn new_cold(spec: WorldSpec) -> Lab {
+        let w = World::build(spec).await;
+        let last = w.snap(true).await;
+        Lab { w, last_heavy: last.clone(), last, since_heavy: 0, builds: 1 }
+    }
+    async fn rebuild(&mut self) {
+        let spec = self.w.spec.clone();
+        let mut fresh = World::build(spec).await;
+        if fresh.spec.life != Life::Warm {
+            fresh.full_snapshot().await;
+        }
+        let old = std::mem::replace(&mut self.w, fresh);
+        old.shutdown().await;
+        self.last = self.w.snap(true).await;
+        self.last_heavy = self.last.clone();
+        self.since_heavy = 0;
+        self.builds += 1;
+    }
+}
+
+struct Obs {
+    resp: Resp,
+    /// every mutation that reached the backend during the request (+ drain)
+    landed: Vec<Mutation>,
+    /// admin-view differences: light part against the view before this request, heavy part (when
+    /// taken) against the last heavy view, `window` requests ago
+    changed: Vec<String>,
+    window: u32,
+}
+
+impl Obs {
+    fn effective(&self) -> Vec<&Mutation> {
+        self.landed.iter().filter(|m| m.effective()).collect()
+    }
+    fn changed(&self) -> Vec<String> {
+        self.changed.clone()
+    }
+}
+
+/// Sends the request and observes its effects. `heavy` forces the full admin view; otherwise
+/// it is taken every `cadence` requests (a change is then attributed to that window).
+async fn observe_c(lab: &mut Lab, req: &Req, yields: usize, heavy: bool, cadence: u32) -> Result<Obs, String> {
+    let mark = lab.w.rec.mark();
+    let resp = send(&lab.w.app, req).await?;
+    drain(yields).await;
+    let landed = lab.w.rec.mutations_since(mark, None);
+    lab.since_heavy += 1;
+    let heavy = heavy || !landed.is_empty() || lab.since_heavy >= cadence;
+    let after = lab.w.snap(heavy).await;
+    let mut changed: BTreeSet<String> = lab.last.diff(&after).into_iter().collect();
+    let window = lab.since_heavy;
+    if heavy {
+        changed.extend(lab.last_heavy.diff(&after));
+        lab.last_heavy = after.clone();
+        lab.since_heavy = 0;
+    }
+    lab.last = after;
+    Ok(Obs { resp, landed, changed: changed.into_iter().collect(), window })
+}
+
+async fn observe(lab: &mut Lab, req: &Req, yields: usize) -> Result<Obs, String> {
+    observe_c(lab, req, yields, true, 1).await
+}
+
+fn describe_muts(ms: &[Mutation]) -> Vec<String> {
+    ms.iter().take(12).map(|m| m.describe()).collect()
+}
+
+fn world_desc(w: &World) -> Value {
+    json!({"b_mode": format!("{:?}", w.spec.bmode), "life": format!("{:?}", w.spec.life),
+           "A": w.spec.names.a, "B": w.spec.names.b, "C": w.spec.names.c, "D": w.spec.names.d,
+           "primary": w.spec.names.primary})
+}
+
+/// Strings a `Principal::Database` caller of `own` must never be shown: names and marker content
+/// of every other database, the server-level extension keys, every other key. Strings the caller
+/// sent itself are not secrets and are dropped.
+fn needles(w: &World, own: &str, c: &Caller, req: &Req) -> Vec<String> {
+    let (n, k) = (&w.spec.names, &w.spec.keys);
+    let mut v: Vec<String> = vec![];
+    for db in [&n.primary, &n.a, &n.b, &n.c, &n.d] {
+        if db != own {
+            if !own.contains(db.as_str()) {
+                v.push(db.clone());
+            }
+            v.push(n.marker(db).to_string());
+            v.push(n.coll(db));
+        }
+    }
+    v.push("server:api_keys".into());
+    v.push("server:databases".into());
+    for key in [&k.admin, &k.a, &k.a_old, &k.b, &k.b_alt, &k.c_removed, &k.d] {
+        if c.token.as_deref() != Some(key.as_str()) {
+            v.push(key.clone());
+        }
+    }
+    let sent = format!("{} {} {}", req.path, req.method, req.params);
+    v.retain(|x| !sent.contains(x.as_str()));
+    v
+}
+
+struct Cfg {
+    table: MethodTable,
+    names: Names,
+    keys: Keys,
+    callers: Vec<Caller>,
+    paths: Vec<PathSpec>,
+}
+
+fn spec(cfg: &Cfg, bmode: BMode, life: Life) -> WorldSpec {
+    WorldSpec { names: cfg.names.clone(), keys: cfg.keys.clone(), bmode, life }
+}
+
+/// Label of `method` in the table of the scope `class` addresses.
+fn label_of(table: &MethodTable, class: &PathClass, method: &str) -> Option<Effect> {
+    match class {
+        PathClass::Root => table.root_effect(method),
+        PathClass::Db(_) => table.db_effect(method),
+        _ => None,
+    }
+}
+
+/// Is this a request the harness built valid parameters for, against an open database?
+fn expected_to_execute(cfg: &Cfg, w: &World, class: &PathClass, enc: Enc, e: &Entry) -> bool {
+    if e.oversize || enc == Enc::Missing {
+        return false;
+    }
+    if !matches!(w.spec.life, Life::Warm | Life::Reopened | Life::Restarted | Life::Crashed) {
+        return false;
+    }
+    match class {
+        PathClass::Root => {
+            e.aim == RootAim::Natural
+                && KNOWN_ROOT.contains(&e.method.as_str())
+                && cfg.table.root_effect(&e.method).is_some()
+        }
+        PathClass::Db(name) => {
+            w.open_dbs().contains(name)
+                && KNOWN_DB.contains(&e.method.as_str())
+                && cfg.table.db_effect(&e.method).is_some()
+        }
+        _ => false,
+    }
+}
+
+// ---------------------------------------------------------------------------------------------
+// monitor 1: the matrix
+
+#[allow(clippy::too_many_arguments)]
+fn judge(
+    cfg: &Cfg,
+    st: &mut Stats,
+    w: &World,
+    c: &Caller,
+    p: &PathSpec,
+    enc: Enc,
+    e: &Entry,
+    req: &Req,
+    obs: &Obs,
+    exp: &Expect,
+    canon: &Resp,
+    path_ref: Option<&Resp>,
+) -> bool {
+    let detail = |what: &str| {
+        json!({"what": what, "world": world_desc(w), "caller": c.label, "caller_kind": c.kind,
+               "path": p.label, "request": req.describe(), "response": obs.resp.describe(),
+               "expected": format!("{exp:?}"),
+               "uniform_rejection": canon.describe(),
+               "mutations": describe_muts(&obs.landed), "admin_view_changed": obs.changed(),
+               "admin_view_window_requests": obs.window})
+    };
+    st.eval();
+    st.count(&format!("outcome:{}:{}", c.kind, obs.resp.status));
+    let label = label_of(&cfg.table, &p.class, &e.method);
+    let eff = obs.effective();
+    let changed = obs.changed();
+    let mut dirty = !obs.landed.is_empty() || !changed.is_empty();
+    match exp {
+        Expect::Reject => {
+            st.count("oracle_uniform_rejection");
+            st.set("rejection_classes", obs.resp.class_hash() ^ (enc.reply() as u64));
+            if obs.resp != *canon {
+                let sig = if obs.resp.status / 100 == 2 {
+                    format!("C14/reject/served/{}", c.kind)
+                } else {
+                    format!("C14/reject/not_uniform/{}", c.kind)
+                };
+                st.violation(sig, detail("an unauthorized caller did not get the uniform rejection"));
+            }
+            st.count("oracle_no_effect");
+            if !eff.is_empty() {
+                st.violation(format!("C14/reject/wrote/{}", c.kind), detail("a rejected request wrote to storage"));
+            }
+            if !changed.is_empty() {
+                st.violation(format!("C14/reject/state_changed/{}", c.kind), detail("a rejected request changed the admin view"));
+            }
+        }
+        Expect::PathOnly => {
+            st.count("oracle_path_only");
+            if let Some(r) = path_ref {
+                if obs.resp != *r {
+                    st.violation(
+                        format!("C14/path_only/caller_dependent/{}", c.kind),
+                        detail("a response that must depend on the path alone depends on the caller"),
+                    );
+                }
+            }
+            if !eff.is_empty() || !changed.is_empty() {
+                st.violation(format!("C14/path_only/effect/{}", c.kind), detail("an unrouted/undecodable request had an effect"));
+            }
+        }
+        Expect::Admin | Expect::Db(_) => {
+            st.count(&format!("accepted:{}", c.kind));
+            if obs.resp.status == 401 {
+                st.inconclusive(format!(
+                    "the rightful key was rejected ({} on {}, {}): accepted-request oracles unobserved",
+                    c.kind, p.label, e.method
+                ));
+                return dirty;
+            }
+            if expected_to_execute(cfg, w, &p.class, enc, e) {
+                if obs.resp.status == 200 {
+                    st.count(&format!("executed:{}", c.kind));
+                    st.count(&format!("executed_method:{}", e.method));
+                } else {
+                    st.inconclusive(format!(
+                        "a request built to be valid did not execute: {} on {} as {} -> {} {:?}",
+                        e.method, p.label, c.kind, obs.resp.status, obs.resp.error_code()
+                    ));
+                }
+            }
+            if let Expect::Db(own) = exp {
+                st.count("oracle_confinement");
+                let prefix = format!("{own}/");
+                let outside: Vec<String> = obs
+                    .landed
+                    .iter()
+                    .filter(|m| match m {
+                        Mutation::Copy { from, to } | Mutation::Rename { from, to } => {
+                            !from.as_ref().starts_with(&prefix) || !to.as_ref().starts_with(&prefix)
+                        }
+                        _ => !m.path().as_ref().starts_with(&prefix),
+                    })
+                    .map(|m| m.describe())
+                    .collect();
+                if !outside.is_empty() {
+                    let mut d = detail("a database key caused storage mutations outside its database's prefix");
+                    d["outside"] = json!(outside);
+                    st.violation(format!("C14/confine/write_outside_prefix/{}", c.kind), d);
+                }
+                let nd = needles(w, own, c, req);
+                if let Some(hit) = find_leak(&obs.resp.body, &nd) {
+                    let mut d = detail("the response to a database key contains another database's or server-level data");
+                    d["leaked"] = json!(hit);
+                    st.violation(format!("C14/confine/response_leak/{}", c.kind), d);
+                }
+                let foreign: Vec<&String> = changed.iter().filter(|x| *x != own).collect();
+                if !foreign.is_empty() {
+                    let mut d = detail("a database key changed state outside its database");
+                    d["foreign"] = json!(foreign);
+                    st.violation(format!("C14/confine/foreign_state_changed/{}", c.kind), d);
+                }
+            }
+            match label {
+                Some(Effect::Read) => {
+                    st.count("oracle_read_wrote_nothing");
+                    st.count(&format!("read_exec:{}", e.method));
+                    if !eff.is_empty() {
+                        st.violation(format!("C14/read_wrote/{}", e.method), detail("a Read-labelled method wrote to storage"));
+                    }
+                    if !changed.is_empty() {
+                        st.violation(format!("C14/read_changed_state/{}", e.method), detail("a Read-labelled method changed the admin view"));
+                    }
+                }
+                Some(Effect::Mutating) => {
+                    // anything the method did (or half did) must not carry over
+                    dirty = dirty || obs.resp.status == 200;
+                }
+                None => {
+                    st.count("oracle_unknown_method_no_effect");
+                    if !eff.is_empty() || !changed.is_empty() {
+                        st.violation(
+                            "C14/unknown_method_effect".to_string(),
+                            detail("a method name that is not in the addressed scope's table had an effect"),
+                        );
+                    }
+                }
+            }
+        }
+    }
+    dirty
+}
+
+/// Fields whose value depends on wall-clock milliseconds (timestamps, and - through the storage
+/// metadata rate limiter - how many metadata writes and fetches a script needed): free.
+const FREE_FIELDS: [&str; 11] = [
+    "version", "last_saved", "check_point", "total_cache_get_count", "total_fetch_count",
+    "total_fetch_bytes", "total_put_count", "total_put_bytes", "total_delete_count", "get_count",
+    "search_count",
+];
+
+fn mask_free(v: &Value) -> Value {
+    match v {
+        Value::Array(a) => Value::Array(a.iter().map(mask_free).collect()),
+        Value::Object(o) => Value::Object(
+            o.iter()
+                .map(|(k, x)| {
+                    if FREE_FIELDS.contains(&k.as_str()) && x.is_number() {
+                        (k.clone(), json!("<free>"))
+                    } else {
+                        (k.clone(), mask_free(x))
+                    }
+                })
+                .collect(),
+        ),
+        _ => v.clone(),
+    }
+}
+
+/// Response compared modulo clock-dependent fields (own-database reads across worlds).
+fn masked(r: &Resp) -> Value {
+    let headers: Vec<&(String, Vec<u8>)> = r.headers.iter().filter(|(k, _)| k != "content-length").collect();
+    json!({"status": r.status, "headers": format!("{headers:?}"),
+           "body": r.decoded().map(|v| mask_free(&mask_times(&v))).unwrap_or_else(|| json!(format!("{:?}", r.body)))})
+}
+
+/// Paths handled by one matrix case (the worlds of a case are shared by its paths).
+const PATH_CHUNK: usize = 4;
+
+async fn matrix_group(cfg: &Cfg, life: Life, ci: usize, chunk: usize, st: &mut Stats) -> Result<(), String> {
+    let c = &cfg.callers[ci];
+    let modes: Vec<BMode> = if c.relational { ALL_BMODES.to_vec() } else { vec![BMode::Keyed] };
+    let mut labs: Vec<Lab> = vec![];
+    for m in &modes {
+        labs.push(Lab::new(spec(cfg, *m, life)).await);
+    }
+    let none = &cfg.callers[0];
+    let probe_entry = Entry { method: "info".into(), aim: RootAim::Natural, oversize: false };
+    // (taken in every world so that their histories stay identical)
+    let mut reference_full = Value::Null;
+    for lab in labs.iter_mut().rev() {
+        reference_full = lab.w.full_snapshot().await;
+    }
+    let encs = [Enc::Cbor, Enc::Json, Enc::Missing];
+    // the uniform rejection of each encoding: what an anonymous `info` on the root gets
+    let mut canon: Vec<Vec<Resp>> = vec![];
+    for enc in encs {
+        let mut per_world = vec![];
+        for lab in labs.iter_mut() {
+            let r = send(&lab.w.app, &build_req(&cfg.names, none, &cfg.paths[0], enc, &probe_entry)).await?;
+            if r.status != 401 || r.error_code().as_deref() != Some("unauthorized") {
+                st.violation("C14/reject/anonymous_root_not_401", json!({"world": world_desc(&lab.w), "response": r.describe()}));
+            }
+            per_world.push(r);
+        }
+        for i in 1..per_world.len() {
+            st.count("oracle_rejection_same_in_every_world");
+            if per_world[i] != per_world[0] {
+                st.violation(
+                    "C14/isolation/rejection_differs_across_worlds",
+                    json!({"world": world_desc(&labs[i].w), "got": per_world[i].describe(), "reference": per_world[0].describe()}),
+                );
+            }
+        }
+        canon.push(per_world);
+    }
+
+    let lo = chunk * PATH_CHUNK;
+    let hi = (lo + PATH_CHUNK).min(cfg.paths.len());
+    for p in &cfg.paths[lo..hi] {
+        for (ei, enc) in encs.into_iter().enumerate() {
+            let canon = &canon[ei];
+            // what the path alone is answered with (anonymous caller), per world
+            let mut path_ref: Vec<Option<Resp>> = vec![];
+            for lab in labs.iter_mut() {
+                path_ref.push(if matches!(p.class, PathClass::BadUtf8 | PathClass::NoRoute) {
+                    Some(send(&lab.w.app, &build_req(&cfg.names, none, p, enc, &probe_entry)).await?)
+                } else {
+                    None
+                });
+            }
+
+            // own-database reads of a database key, replayed in every world on identical histories
+            if let Expect::Db(_) = expect(&labs[0].w, c, &p.class) {
+                if c.relational && enc != Enc::Missing {
+                    for (m, eff) in cfg.table.db.clone() {
+                        if eff != Effect::Read {
+                            continue;
+                        }
+                        let e = Entry { method: m, aim: RootAim::Natural, oversize: false };
+                        let req = build_req(&cfg.names, c, p, enc, &e);
+                        let mut got: Vec<Value> = vec![];
+                        for lab in labs.iter_mut() {
+                            let o = observe(lab, &req, 1).await?;
+                            got.push(masked(&o.resp));
+                        }
+                        st.count("relational_own_reads_compared");
+                        for i in 1..got.len() {
+                            if got[i] != got[0] {
+                                st.violation(
+                                    format!("C14/isolation/own_read_depends_on_b/{}", c.kind),
+                                    json!({"what": "a database key's read of its own database differs with B's existence/key",
+                                           "request": req.describe(), "world": world_desc(&labs[i].w),
+                                           "got": got[i], "reference_world_b_keyed": got[0]}),
+                                );
+                            }
+                        }
+                    }
+                }
+            }
+
+            let mut since_full = 0u32;
+            for e in entries(&cfg.table, &p.class) {
+                if e.oversize && enc == Enc::Missing {
+                    continue;
+                }
+                let req = build_req(&cfg.names, c, p, enc, &e);
+                st.distinct(vcore::fnv_str(&format!("{}|{}|{:?}|{:?}", c.label, p.label, enc, e)));
+                st.count("matrix_requests");
+                let exp = expect(&labs[0].w, c, &p.class);
+                let comparable = matches!(exp, Expect::Reject | Expect::PathOnly);
+                let obs0 = observe_c(&mut labs[0], &req, 2, !comparable, 8).await?;
+                st.set("response_classes", obs0.resp.class_hash());
+                let dirty = judge(cfg, st, &labs[0].w, c, p, enc, &e, &req, &obs0, &exp, &canon[0], path_ref[0].as_ref());
+                st.sample(|| json!({"monitor": "matrix", "caller": c.label, "request": req.describe(),
+                                    "expected": format!("{exp:?}"), "status": obs0.resp.status}));
+                if comparable && labs.len() > 1 {
+                    st.count("relational_tuples_compared");
+                    for i in 1..labs.len() {
+                        let exp_i = expect(&labs[i].w, c, &p.class);
+                        let obs = observe_c(&mut labs[i], &req, 2, false, 16).await?;
+                        let d = judge(cfg, st, &labs[i].w, c, p, enc, &e, &req, &obs, &exp_i, &canon[i], path_ref[i].as_ref());
+                        st.count("relational_pairs_compared");
+                        if obs.resp != obs0.resp {
+                            st.violation(
+                                format!("C14/isolation/differs_across_worlds/{}", c.kind),
+                                json!({"what": "the same request is answered differently depending on B's existence or key",
+                                       "caller": c.label, "path": p.label, "request": req.describe(),
+                                       "world": world_desc(&labs[i].w), "got": obs.resp.describe(),
+                                       "reference_world_b_keyed": obs0.resp.describe()}),
+                            );
+                        }
+                        if d {
+                            labs[i].rebuild().await;
+                        }
+                    }
+                }
+                if dirty {
+                    labs[0].rebuild().await;
+                    st.count("world_rebuilds");
+                } else {
+                    since_full += 1;
+                    if since_full >= 24 {
+                        since_full = 0;
+                        st.count("oracle_full_admin_snapshot");
+                        let now = labs[0].w.full_snapshot().await;
+                        if now != reference_full {
+                            st.violation(
+                                format!("C14/no_effect/full_admin_view_changed/{}", c.kind),
+                                json!({"caller": c.label, "path": p.label, "last_request": req.describe(),
+                                       "before": reference_full, "after": now}),
+                            );
+                            labs[0].rebuild().await;
+                        }
+                    }
+                }
+            }
+        }
+    }
+    st.count("oracle_full_admin_snapshot");
+    let now = labs[0].w.full_snapshot().await;
+    if now != reference_full {
+        st.violation(
+            format!("C14/no_effect/full_admin_view_changed/{}", c.kind),
+            json!({"caller": c.label, "before": reference_full, "after": now}),
+        );
+    }
+    for mut lab in labs {
+        // close the window of the low-cadence heavy view
+        let after = lab.w.snap(true).await;
+        let d = lab.last_heavy.diff(&after);
+        if !d.is_empty() {
+            st.violation(
+                format!("C14/no_effect/admin_view_changed_in_window/{}", c.kind),
+                json!({"caller": c.label, "world": world_desc(&lab.w), "changed": d, "window_requests": lab.since_heavy}),
+            );
+        }
+        lab.last_heavy = after;
+        st.add("worlds_built", lab.builds);
+        lab.w.shutdown().await;
+    }
+    Ok(())
+}
+
+/// Other HTTP methods and the health endpoint: answered identically for every caller and every
+/// world, without database names or content, without any effect.
+async fn http_methods_case(cfg: &Cfg, st: &mut Stats) -> Result<(), String> {
+    let mut labs: Vec<Lab> = vec![];
+    for m in ALL_BMODES {
+        labs.push(Lab::new(spec(cfg, m, Life::Warm)).await);
+    }
+    let n = &cfg.names;
+    let all_names: Vec<String> = [&n.primary, &n.a, &n.b, &n.c, &n.d]
+        .iter()
+        .flat_map(|d| [d.to_string(), n.marker(d).to_string(), n.coll(d)])
+        .collect();
+    for hm in ["GET", "PUT", "DELETE", "PATCH", "HEAD", "OPTIONS"] {
+        for uri in ["/".to_string(), format!("/{}", n.a), format!("/{}", n.b), format!("/{}", n.missing)] {
+            let mut reference: Option<Resp> = None;
+            for c in &cfg.callers {
+                for lab in labs.iter_mut() {
+                    let mark = lab.w.rec.mark();
+                    let body = encode_body(Enc::Json, "db.list", &json!({}));
+                    let r = send_raw(&lab.w.app, hm, &uri, c.header.as_deref(), Enc::Json, body).await?;
+                    drain(2).await;
+                    st.eval();
+                    st.count("http_method_requests");
+                    st.count(&format!("http_outcome:{hm}:{}", r.status));
+                    let landed = lab.w.effective_since(mark);
+                    let after = lab.w.snap(true).await;
+                    let d = json!({"http_method": hm, "uri": uri, "caller": c.label, "world": world_desc(&lab.w),
+                                   "response": r.describe(), "mutations": describe_muts(&landed)});
+                    if !landed.is_empty() || after != lab.last {
+                        st.violation(format!("C14/non_post/effect/{hm}"), d.clone());
+                        lab.last = after;
+                    }
+                    // (the URI itself may be echoed by nothing: the health payload is name+version)
+                    let nd: Vec<String> = all_names.iter().filter(|x| !uri.contains(x.as_str())).cloned().collect();
+                    if let Some(hit) = find_leak(&r.body, &nd) {
+                        let mut d = d.clone();
+                        d["leaked"] = json!(hit);
+                        st.violation(format!("C14/non_post/leak/{hm}"), d);
+                    }
+                    match &reference {
+                        None => reference = Some(r),
+                        Some(x) => {
+                            if *x != r {
+                                let mut d = d.clone();
+                                d["reference"] = x.describe();
+                                st.violation(format!("C14/non_post/caller_or_world_dependent/{hm}"), d);
+                            }
+                        }
+                    }
+                }
+            }
+        }
+    }
+    for lab in labs {
+        lab.w.shutdown().await;
+    }
+    Ok(())
+}
+
+// ---------------------------------------------------------------------------------------------
+// monitor 2: reads never write, over lifecycle states
+
+async fn rnw_case(cfg: &Cfg, life: Life, st: &mut Stats) -> Result<(), String> {
+    let mut lab = Lab::new_cold(spec(cfg, BMode::Keyed, life)).await;
+    let n = cfg.names.clone();
+    st.count(&format!("rnw_life:{life:?}"));
+    let admin = cfg.callers.iter().find(|c| c.kind == "admin").unwrap();
+    let key_a = cfg.callers.iter().find(|c| c.kind == "key_a").unwrap();
+    let key_b = cfg.callers.iter().find(|c| c.kind == "key_b").unwrap();
+    // (caller, path index) pairs that are accepted
+    let mut pairs: Vec<(&Caller, usize)> = vec![];
+    for (pi, p) in cfg.paths.iter().enumerate() {
+        match &p.class {
+            PathClass::Root => pairs.push((admin, pi)),
+            PathClass::Db(name) if p.uri == format!("/{name}") && lab.w.open_dbs().contains(name) => {
+                pairs.push((admin, pi));
+                if *name == n.a {
+                    pairs.push((key_a, pi));
+                }
+                if *name == n.b {
+                    pairs.push((key_b, pi));
+                }
+            }
+            _ => {}
+        }
+    }
+    let block_mark = lab.w.rec.mark();
+    let mut accounted = 0usize;
+    for (c, pi) in pairs {
+        let p = &cfg.paths[pi];
+        let tbl = if p.class == PathClass::Root { &cfg.table.root } else { &cfg.table.db };
+        for enc in [Enc::Cbor, Enc::Json] {
+            for (m, eff) in tbl {
+                if *eff != Effect::Read {
+                    continue;
+                }
+                let e = Entry { method: m.clone(), aim: RootAim::Natural, oversize: false };
+                let req = build_req(&n, c, p, enc, &e);
+                let exp = expect(&lab.w, c, &p.class);
+                // a read that names a collection whose handle is not loaded performs the
+                // documented lazy open (api/collection.rs::open), which may flush: measured
+                // and confined, not asserted; the read is then measured on the loaded handle
+                if let PathClass::Db(db) = &p.class {
+                    let key = (db.clone(), n.coll(db));
+                    if touches_collection(m) && !lab.w.warm.contains(&key) {
+                        let o = observe(&mut lab, &req, 30).await?;
+                        st.count("rnw_cold_open_reads");
+                        st.add("rnw_cold_open_mutations", o.effective().len() as u64);
+                        st.add(&format!("rnw_cold_open_mutations:{life:?}"), o.effective().len() as u64);
+                        if !o.effective().is_empty() {
+                            st.sample(|| json!({"monitor": "rnw", "note": "documented lazy open on a read wrote (counted, not asserted)",
+                                "life": format!("{life:?}"), "request": req.describe(), "mutations": describe_muts(&o.landed)}));
+                        }
+                        accounted += o.effective().len();
+                        let prefix = format!("{db}/");
+                        if o.landed.iter().any(|x| !x.path().as_ref().starts_with(&prefix)) {
+                            st.violation(
+                                format!("C14/confine/cold_open_wrote_outside_prefix/{}", c.kind),
+                                json!({"world": world_desc(&lab.w), "caller": c.label, "request": req.describe(),
+                                       "mutations": describe_muts(&o.landed)}),
+                            );
+                        }
+                        if o.resp.status == 200 {
+                            // the handle is loaded now: it joins the admin view
+                            lab.w.warm.insert(key);
+                            lab.last = lab.w.snap(true).await;
+                            lab.last_heavy = lab.last.clone();
+                        }
+                    }
+                }
+                let o = observe(&mut lab, &req, 30).await?;
+                st.eval();
+                st.count("rnw_executions");
+                st.count(&format!("rnw:{m}"));
+                st.count(&format!("rnw_caller:{}", c.kind));
+                st.distinct(vcore::fnv_str(&format!("rnw|{life:?}|{}|{}|{enc:?}|{m}", c.kind, p.label)));
+                if o.resp.status == 200 {
+                    st.count("rnw_status_200");
+                } else if o.resp.status == 401 {
+                    st.inconclusive(format!("rnw: rightful caller rejected ({} {m})", c.kind));
+                } else if KNOWN_DB.contains(&m.as_str()) || KNOWN_ROOT.contains(&m.as_str()) {
+                    st.inconclusive(format!("rnw: read built to be valid answered {} ({m}, {life:?})", o.resp.status));
+                }
+                accounted += o.effective().len();
+                let detail = |what: &str| {
+                    json!({"what": what, "world": world_desc(&lab.w), "caller": c.label, "request": req.describe(),
+                           "response": o.resp.describe(), "mutations": describe_muts(&o.landed),
+                           "admin_view_changed": o.changed()})
+                };
+                if !o.effective().is_empty() {
+                    st.violation(format!("C14/read_wrote/{m}"), detail("a Read-labelled method wrote to storage"));
+                }
+                if !o.changed().is_empty() {
+                    st.violation(format!("C14/read_changed_state/{m}"), detail("a Read-labelled method changed the admin view"));
+                }
+                if let Expect::Db(own) = &exp {
+                    if let Some(hit) = find_leak(&o.resp.body, &needles(&lab.w, own, c, &req)) {
+                        let mut d = detail("the response to a database key contains foreign data");
+                        d["leaked"] = json!(hit);
+                        st.violation(format!("C14/confine/response_leak/{}", c.kind), d);
+                    }
+                }
+            }
+        }
+    }
+    // late writers: give timers and detached tasks real time, then the log must not have grown
+    tokio::time::sleep(std::time::Duration::from_millis(3)).await;
+    drain(50).await;
+    let total = lab.w.effective_since(block_mark).len();
+    st.count("oracle_no_late_write");
+    if total != accounted {
+        let all = lab.w.effective_since(block_mark);
+        st.violation(
+            "C14/read_wrote/late",
+            json!({"what": "storage mutations appeared after the read responses were delivered",
+                   "world": world_desc(&lab.w), "accounted": accounted, "total": total,
+                   "tail": describe_muts(&all[all.len().saturating_sub(12)..])}),
+        );
+    }
+    lab.w.shutdown().await;
+    Ok(())
+}
+
+// ---------------------------------------------------------------------------------------------
+// monitor 3: histories of lifecycle and key operations, with a model of the bindings
+
+const HIST_DBS: [&str; 3] = ["hist_alpha", "hist_zebra_zq", "hist_cedar"];
+const HIST_PRIMARY: &str = "hist_prim";
+const HIST_ADMIN: &str = "adm-hist-0f3e7a";
+
+#[derive(Clone, Debug, PartialEq)]
+enum HOp {
+    Create(usize, bool),
+    Close(usize),
+    Open(usize),
+    Connect(usize),
+    SetKey(usize),
+    SetKeyGenerated(usize),
+    RemoveKey(usize),
+    AddDoc(usize),
+    Restart,
+    CrashRestart,
+}
+
+impl HOp {
+    fn db(&self) -> Option<usize> {
+        match self {
+            HOp::Create(d, _) | HOp::Close(d) | HOp::Open(d) | HOp::Connect(d) | HOp::SetKey(d)
+            | HOp::SetKeyGenerated(d) | HOp::RemoveKey(d) | HOp::AddDoc(d) => Some(*d),
+            _ => None,
+        }
+    }
+}
+
+#[derive(Clone, Debug, Default)]
+struct HModel {
+    exists: BTreeSet<usize>,
+    open: BTreeSet<usize>,
+    binding: BTreeMap<usize, String>,
+    /// every key ever issued, by the history step that issued it: (db, key)
+    issued: BTreeMap<usize, (usize, String)>,
+    has_coll: BTreeSet<usize>,
+}
+
+fn gen_history(rng: &mut Rng, len: usize) -> Vec<HOp> {
+    // generated against a model so that most operations are valid; a few are not on purpose
+    let mut m = HModel::default();
+    let mut ops = vec![];
+    // A and B always come to life early, each under a key
+    for d in [0usize, 1] {
+        ops.push(HOp::Create(d, true));
+        m.exists.insert(d);
+        m.open.insert(d);
+    }
+    while ops.len() < len {
+        let d = rng.usize(3);
+        let op = match rng.weighted(&[8, 10, 10, 6, 16, 5, 12, 8, 6, 8]) {
+            0 => HOp::Create(d, rng.chance(2, 3)),
+            1 => HOp::Close(d),
+            2 => HOp::Open(d),
+            3 => HOp::Connect(d),
+            4 => HOp::SetKey(d),
+            5 => HOp::SetKeyGenerated(d),
+            6 => HOp::RemoveKey(d),
+            7 => HOp::AddDoc(d),
+            8 => HOp::Restart,
+            _ => HOp::CrashRestart,
+        };
+        // keep mostly valid operations
+        let valid = match &op {
+            HOp::Create(d, _) => !m.exists.contains(d),
+            HOp::Close(d) | HOp::SetKey(d) | HOp::SetKeyGenerated(d) | HOp::RemoveKey(d) | HOp::AddDoc(d) => m.open.contains(d),
+            HOp::Open(d) => m.exists.contains(d) && !m.open.contains(d),
+            _ => true,
+        };
+        if !valid && !rng.chance(1, 6) {
+            continue;
+        }
+        if valid {
+            match &op {
+                HOp::Create(d, _) | HOp::Connect(d) | HOp::Open(d) => {
+                    m.exists.insert(*d);
+                    m.open.insert(*d);
+                }
+                HOp::Close(d) => {
+                    m.open.remove(d);
+                }
+                _ => {}
+            }
+        }
+        ops.push(op);
+    }
+    ops
+}
+
+#[derive(Clone, Copy, PartialEq, Eq, Debug)]
+enum Variant {
+    Full,
+    /// every key bound to B is a different string
+    BRekeyed,
+    /// every operation on B is dropped: B never exists
+    BAbsent,
+}
+
+struct HWorld {
+    variant: Variant,
+    rec: RecStore,
+    state: AppState,
+    app: axum::Router,
+    model: HModel,
+    key_counter: u64,
+}
+
+impl HWorld {
+    async fn new(variant: Variant) -> HWorld {
+        let rec = RecStore::new();
+        rec.set_record_reads(false);
+        let state = AppState::connect(rec.as_dyn(), server_options(HIST_PRIMARY, Some(HIST_ADMIN.into())))
+            .await
+            .expect("AppState::connect");
+        let app = build_router(state.clone());
+        HWorld { variant, rec, state, app, model: HModel::default(), key_counter: 0 }
+    }
+
+    async fn admin(&self, path: &str, method: &str, params: Value) -> Result<Resp, String> {
+        send(&self.app, &Req { path: path.into(), auth: Some(bearer(HIST_ADMIN)), enc: Enc::Cbor, method: method.into(), params }).await
+    }
+
+    fn next_key(&mut self, d: usize) -> String {
+        self.key_counter += 1;
+        let alt = if self.variant == Variant::BRekeyed && d == 1 { "-other" } else { "" };
+        format!("hk-{d}-{}-7e1f{alt}", self.key_counter)
+    }
+
+    async fn restart(&mut self, crash: bool) {
+        let rec = if crash {
+            let r = RecStore::over(self.rec.snapshot().await);
+            r.set_record_reads(false);
+            r
+        } else {
+            self.state.shutdown().await;
+            self.rec.clone()
+        };
+        let state = AppState::connect(rec.as_dyn(), server_options(HIST_PRIMARY, Some(HIST_ADMIN.into())))
+            .await
+            .expect("AppState::connect (restart)");
+        self.app = build_router(state.clone());
+        self.state = state;
+        self.rec = rec;
+    }
+
+    /// Applies one operation as the admin; the model follows the server's answers.
+    async fn apply(&mut self, op: &HOp, step: usize, st: &mut Stats) -> Result<u16, String> {
+        // keep key numbering aligned across variants even when the operation is dropped
+        let dropped = self.variant == Variant::BAbsent && op.db() == Some(1);
+        let name = |d: usize| HIST_DBS[d].to_string();
+        let status = match op {
+            HOp::Create(d, keyed) => {
+                let key = keyed.then(|| self.next_key(*d));
+                if dropped {
+                    return Ok(0);
+                }
+                let mut p = json!({"name": name(*d)});
+                if let Some(k) = &key {
+                    p["api_key"] = json!(k);
+                }
+                let r = self.admin("/", "db.create", p).await?;
+                if r.status == 200 {
+                    self.model.exists.insert(*d);
+                    self.model.open.insert(*d);
+                    if let Some(k) = key {
+                        self.model.binding.insert(*d, k.clone());
+                        self.model.issued.insert(step, (*d, k));
+                    }
+                }
+                r.status
+            }
+            HOp::Close(d) => {
+                if dropped {
+                    return Ok(0);
+                }
+                let r = self.admin("/", "db.close", json!({"name": name(*d)})).await?;
+                if r.status == 200 {
+                    self.model.open.remove(d);
+                }
+                r.status
+            }
+            HOp::Open(d) | HOp::Connect(d) => {
+                if dropped {
+                    return Ok(0);
+                }
+                let m = if matches!(op, HOp::Open(_)) { "db.open" } else { "db.connect" };
+                let r = self.admin("/", m, json!({"name": name(*d)})).await?;
+                if r.status == 200 {
+                    self.model.exists.insert(*d);
+                    self.model.open.insert(*d);
+                }
+                r.status
+            }
+            HOp::SetKey(d) => {
+                let key = self.next_key(*d);
+                if dropped {
+                    return Ok(0);
+                }
+                let r = self.admin("/", "db.set_api_key", json!({"name": name(*d), "api_key": key})).await?;
+                if r.status == 200 {
+                    self.model.binding.insert(*d, key.clone());
+                    self.model.issued.insert(step, (*d, key));
+                }
+                r.status
+            }
+            HOp::SetKeyGenerated(d) => {
+                if dropped {
+                    return Ok(0);
+                }
+                let r = self.admin("/", "db.set_api_key", json!({"name": name(*d)})).await?;
+                if r.status == 200 {
+                    match r.result().and_then(|v| v.get("api_key").and_then(|k| k.as_str().map(|s| s.to_string()))) {
+                        Some(k) => {
+                            self.model.binding.insert(*d, k.clone());
+                            self.model.issued.insert(step, (*d, k));
+                        }
+                        None => st.inconclusive("db.set_api_key without a key returned no generated key"),
+                    }
+                }
+                r.status
+            }
+            HOp::RemoveKey(d) => {
+                if dropped {
+                    return Ok(0);
+                }
+                let r = self.admin("/", "db.remove_api_key", json!({"name": name(*d)})).await?;
+                if r.status == 200 {
+                    self.model.binding.remove(d);
+                }
+                r.status
+            }
+            HOp::AddDoc(d) => {
+                if dropped {
+                    return Ok(0);
+                }
+                let path = format!("/{}", name(*d));
+                let marker = ["HALPHA", "HZEBRAQUARTZ", "HCEDAR"][*d];
+                if !self.model.has_coll.contains(d) {
+                    let r = self.admin(&path, "collection.create", collection_params("hcoll", marker, false)).await?;
+                    if r.status == 200 {
+                        self.model.has_coll.insert(*d);
+                    }
+                }
+                let r = self.admin(&path, "doc.add", json!({"collection": "hcoll", "doc": doc_for(marker, 1, false)})).await?;
+                r.status
+            }
+            HOp::Restart => {
+                self.restart(false).await;
+                200
+            }
+            HOp::CrashRestart => {
+                self.restart(true).await;
+                200
+            }
+        };
+        Ok(status)
+    }
+}
+
+/// One probe: who asks what where.
+#[derive(Clone, Debug)]
+struct Probe {
+    who: ProbeWho,
+    /// None = root, Some(d) = database d, Some(3) = a database that never exists
+    target: Option<usize>,
+    mutating: bool,
+    enc: Enc,
+}
+
+#[derive(Clone, Debug, PartialEq)]
+enum ProbeWho {
+    None,
+    Garbage,
+    Admin,
+    /// holder of the key issued by this history step
+    Issued(usize),
+}
+
+async fn hist_case(case: u64, rng: &mut Rng, st: &mut Stats, len: usize) -> Result<(), String> {
+    let ops = gen_history(rng, len);
+    let mut worlds = vec![
+        HWorld::new(Variant::Full).await,
+        HWorld::new(Variant::BRekeyed).await,
+        HWorld::new(Variant::BAbsent).await,
+    ];
+    let mut canon: BTreeMap<u8, Resp> = BTreeMap::new();
+    for enc in [Enc::Cbor, Enc::Json] {
+        let r = send(&worlds[0].app, &Req { path: "/".into(), auth: None, enc, method: "info".into(), params: json!({}) }).await?;
+        if r.status != 401 {
+            st.violation("C14/reject/anonymous_root_not_401", json!({"response": r.describe()}));
+        }
+        canon.insert(enc as u8, r);
+    }
+    let mut kinds = BTreeSet::new();
+    let mut trace: Vec<String> = vec![];
+    for (step, op) in ops.iter().enumerate() {
+        let kind = format!("{op:?}").split('(').next().unwrap_or("").to_string();
+        st.count(&format!("hist_op:{kind}"));
+        kinds.insert(kind);
+        let mut statuses = vec![];
+        for w in worlds.iter_mut() {
+            statuses.push(w.apply(op, step, st).await?);
+        }
+        trace.push(format!("{op:?} -> {statuses:?}"));
+        // operations that do not concern B must be answered alike in every variant
+        if op.db() != Some(1) && (statuses[1] != statuses[0] || statuses[2] != statuses[0]) {
+            st.inconclusive(format!("hist: admin operation {op:?} answered differently across variants {statuses:?}"));
+            break;
+        }
+        // probes
+        let slots: Vec<usize> = worlds[0].model.issued.keys().copied().collect();
+        let mut whos = vec![ProbeWho::None, ProbeWho::Garbage, ProbeWho::Admin];
+        let lo = slots.len().saturating_sub(7);
+        for s in &slots[lo..] {
+            whos.push(ProbeWho::Issued(*s));
+        }
+        if lo > 0 {
+            whos.push(ProbeWho::Issued(slots[0]));
+        }
+        let mut probes = vec![];
+        for who in &whos {
+            for target in [None, Some(0), Some(1), Some(2), Some(3)] {
+                let enc = if rng.bool() { Enc::Cbor } else { Enc::Json };
+                probes.push(Probe { who: who.clone(), target, mutating: false, enc });
+                if rng.chance(1, 3) {
+                    probes.push(Probe { who: who.clone(), target, mutating: true, enc });
+                }
+            }
+        }
+        for pr in probes {
+            let mut answers: Vec<Option<Resp>> = vec![];
+            for w in worlds.iter_mut() {
+                // the holder of an issued key: in the B-absent variant keys of B were never issued
+                let (token, holder_db): (Option<String>, Option<usize>) = match &pr.who {
+                    ProbeWho::None => (None, None),
+                    ProbeWho::Garbage => (Some("hk-garbage-00".into()), None),
+                    ProbeWho::Admin => (Some(HIST_ADMIN.into()), None),
+                    // the key issued by that history step in this variant (absent when the step
+                    // was dropped here: keys of B in the B-absent variant)
+                    ProbeWho::Issued(slot) => match w.model.issued.get(slot) {
+                        Some((db, key)) => (Some(key.clone()), Some(*db)),
+                        None => {
+                            answers.push(None);
+                            continue;
+                        }
+                    },
+                };
+                let path = match pr.target {
+                    None => "/".to_string(),
+                    Some(3) => "/hist_never".to_string(),
+                    Some(d) => format!("/{}", HIST_DBS[d]),
+                };
+                let (method, params) = match (pr.target, pr.mutating) {
+                    (None, false) => ("db.list", json!({})),
+                    (None, true) => ("db.close", json!({"name": HIST_DBS[1]})),
+                    (_, false) => ("db.metadata", json!({})),
+                    (_, true) => ("db.save_extension", json!({"key": "probe", "value": 1})),
+                };
+                let admin = pr.who == ProbeWho::Admin;
+                if admin && pr.mutating {
+                    answers.push(None);
+                    continue;
+                }
+                let req = Req { path, auth: token.as_ref().map(|t| bearer(t)), enc: pr.enc, method: method.into(), params };
+                let mark = w.rec.mark();
+                let r = send(&w.app, &req).await?;
+                drain(1).await;
+                let landed: Vec<Mutation> = w.rec.mutations_since(mark, None).into_iter().filter(|m| m.effective()).collect();
+                st.eval();
+                st.count("hist_probes");
+                let accept = admin
+                    || match (pr.target, &token) {
+                        (Some(d), Some(t)) if d < 3 => w.model.binding.get(&d) == Some(t),
+                        _ => false,
+                    };
+                let detail = |what: &str| {
+                    json!({"what": what, "variant": format!("{:?}", w.variant), "history": trace, "step": step,
+                           "request": req.describe(), "response": r.describe(), "key_issued_for": holder_db.map(|d| HIST_DBS[d]),
+                           "model_bindings": w.model.binding.iter().map(|(d, k)| format!("{}={k}", HIST_DBS[*d])).collect::<Vec<_>>(),
+                           "model_open": w.model.open.iter().map(|d| HIST_DBS[*d]).collect::<Vec<_>>(),
+                           "mutations": describe_muts(&landed)})
+                };
+                if !accept {
+                    st.count("hist_expected_reject");
+                    let revoked = holder_db.is_some() && holder_db == pr.target;
+                    if revoked {
+                        st.count("hist_revoked_key_on_own_db");
+                    }
+                    if r != canon[&(pr.enc as u8)] {
+                        let sig = if revoked { "C14/history/revoked_key_not_rejected" } else { "C14/history/not_uniform_rejection" };
+                        st.violation(sig, detail("a caller without a valid binding did not get the uniform rejection"));
+                    }
+                    if !landed.is_empty() {
+                        st.violation("C14/history/rejected_request_wrote", detail("a rejected request wrote to storage"));
+                    }
+                } else {
+                    st.count("hist_expected_accept");
+                    let want = match pr.target {
+                        Some(d) if d < 3 && !w.model.open.contains(&d) => 404,
+                        Some(3) => 404,
+                        _ => 200,
+                    };
+                    if r.status == 401 {
+                        st.violation("C14/history/bound_key_rejected", detail("the key the model has bound (or the admin key) is rejected"));
+                    } else if r.status != want {
+                        st.inconclusive(format!("hist: accepted probe answered {} (model expects {want}) for {op:?}", r.status));
+                    }
+                    if !pr.mutating && !landed.is_empty() {
+                        st.violation(format!("C14/read_wrote/{method}"), detail("a Read-labelled method wrote to storage"));
+                    }
+                    if !admin {
+                        if let Some(d) = pr.target {
+                            let nd: Vec<String> = (0..3)
+                                .filter(|x| *x != d)
+                                .flat_map(|x| [HIST_DBS[x].to_string(), ["HALPHA", "HZEBRAQUARTZ", "HCEDAR"][x].to_string()])
+                                .chain([HIST_PRIMARY.to_string(), "server:api_keys".to_string()])
+                                .collect();
+                            if let Some(hit) = find_leak(&r.body, &nd) {
+                                let mut dd = detail("response to a database key contains foreign data");
+                                dd["leaked"] = json!(hit);
+                                st.violation("C14/history/response_leak", dd);
+                            }
+                            let prefix = format!("{}/", HIST_DBS[d]);
+                            if landed.iter().any(|m| !m.path().as_ref().starts_with(&prefix)) {
+                                st.violation("C14/history/write_outside_prefix", detail("a database key wrote outside its prefix"));
+                            }
+                        }
+                    }
+                }
+                answers.push(Some(r));
+            }
+            // relational: a caller that holds no key of B sees the same answers whatever B is
+            let holder_of_b = matches!(&pr.who, ProbeWho::Issued(i) if worlds[0].model.issued[i].0 == 1);
+            let own_db = matches!((&pr.who, pr.target), (ProbeWho::Issued(i), Some(t)) if worlds[0].model.issued[i].0 == t);
+            if pr.who != ProbeWho::Admin && !holder_of_b {
+                if let Some(Some(base)) = answers.first() {
+                    st.count("hist_relational_tuples");
+                    for (vi, a) in answers.iter().enumerate().skip(1) {
+                        let Some(a) = a else { continue };
+                        let same = if own_db { masked(a) == masked(base) } else { a == base };
+                        if !same {
+                            st.violation(
+                                "C14/isolation/history_differs_across_worlds",
+                                json!({"what": "a caller without any key of B gets different answers depending on B",
+                                       "history": trace, "step": step, "probe": format!("{pr:?}"),
+                                       "variant": format!("{:?}", worlds[vi].variant),
+                                       "got": a.describe(), "reference": base.describe()}),
+                            );
+                        }
+                    }
+                }
+            }
+        }
+        if !st.violations.is_empty() {
+            break;
+        }
+    }
+    if kinds.len() >= 5 {
+        st.distinct(vcore::hash_debug(&ops));
+    }
+    st.sample(|| json!({"monitor": "hist", "case": case, "history": trace.iter().take(14).collect::<Vec<_>>()}));
+    for w in worlds {
+        w.state.shutdown().await;
+    }
+    Ok(())
+}
+
+// ---------------------------------------------------------------------------------------------
+// monitor 4: the documented provisioning guards, stated as confinement
+
+async fn guards_case(cfg: &Cfg, st: &mut Stats) -> Result<(), String> {
+    let (n, k) = (&cfg.names, &cfg.keys);
+    let probe = |app: &axum::Router, key: Option<&str>, path: String, method: &str| {
+        let app = app.clone();
+        let req = Req { path, auth: key.map(bearer), enc: Enc::Json, method: method.into(), params: json!({"key": "ext_db"}) };
+        async move { send(&app, &req).await }
+    };
+
+    // 1. a restart without the admin key over a store that carries bindings must not serve the
+    //    bound databases to anybody (documented: the server refuses to start)
+    let w = World::build(spec(cfg, BMode::Keyed, Life::Warm)).await;
+    w.state.shutdown().await;
+    st.eval();
+    match AppState::connect(w.rec.as_dyn(), server_options(&n.primary, None)).await {
+        Err(_) => st.count("guard_keyless_restart_refused"),
+        Ok(state) => {
+            let app = build_router(state.clone());
+            for db in [&n.a, &n.b] {
+                let r = probe(&app, None, format!("/{db}"), "db.metadata").await?;
+                if r.status == 200 {
+                    st.violation(
+                        "C14/guards/keyless_restart_serves_bound_database",
+                        json!({"what": "restarted without an admin key over persisted bindings: a bound database answers an anonymous caller",
+                               "database": db, "response": r.describe()}),
+                    );
+                }
+            }
+            state.shutdown().await;
+        }
+    }
+    // 2. a restart under another admin key: the old admin key is a stranger, bindings still hold
+    st.eval();
+    let state = AppState::connect(w.rec.as_dyn(), server_options(&n.primary, Some("adm-second-91".into())))
+        .await
+        .map_err(|e| format!("restart under a new admin key failed: {}", e.message))?;
+    let app = build_router(state.clone());
+    for (key, path, want_ok) in [
+        (k.admin.as_str(), "/".to_string(), false),
+        (k.admin.as_str(), format!("/{}", n.a), false),
+        (k.a.as_str(), format!("/{}", n.a), true),
+        (k.a.as_str(), format!("/{}", n.b), false),
+        (k.a_old.as_str(), format!("/{}", n.a), false),
+        (k.c_removed.as_str(), format!("/{}", n.c), false),
+        ("adm-second-91", format!("/{}", n.b), true),
+    ] {
+        let r = probe(&app, Some(key), path.clone(), if path == "/" { "db.list" } else { "db.metadata" }).await?;
+        st.count("guard_restart_probes");
+        if want_ok && r.status != 200 {
+            st.inconclusive(format!("guards: bound key not accepted after restart ({path}: {})", r.status));
+        }
+        if !want_ok && r.status != 401 {
+            st.violation(
+                "C14/guards/stale_or_foreign_key_accepted_after_restart",
+                json!({"path": path, "key": key, "response": r.describe()}),
+            );
+        }
+    }
+    state.shutdown().await;
+
+    // 3. the primary database (registry + key hashes) cannot be delegated; an empty key cannot be
+    //    bound; a failed db.create over existing storage does not re-key
+    let w = World::build(spec(cfg, BMode::Keyed, Life::Warm)).await;
+    st.eval();
+    let attempts = [
+        ("db.set_api_key", json!({"name": n.primary, "api_key": "kp-try-1"}), "kp-try-1", n.primary.clone()),
+        ("db.create", json!({"name": n.primary, "api_key": "kp-try-2"}), "kp-try-2", n.primary.clone()),
+        ("db.connect", json!({"name": n.primary, "api_key": "kp-try-3"}), "kp-try-3", n.primary.clone()),
+        ("db.set_api_key", json!({"name": n.a, "api_key": "  "}), "  ", n.a.clone()),
+        ("db.set_api_key", json!({"name": n.a, "api_key": ""}), "", n.a.clone()),
+        ("db.create", json!({"name": n.d, "api_key": "kd-try-4"}), "kd-try-4", n.d.clone()),
+        ("db.create", json!({"name": n.a, "api_key": "ka-try-5"}), "ka-try-5", n.a.clone()),
+    ];
+    for (method, params, key, db) in attempts {
+        let r = send(&w.app, &Req { path: "/".into(), auth: Some(bearer(&k.admin)), enc: Enc::Json, method: method.into(), params: params.clone() }).await?;
+        st.count("guard_binding_attempts");
+        if r.status == 200 {
+            st.count("guard_binding_attempt_answered_200");
+        }
+        let after = probe(&w.app, Some(key), format!("/{db}"), "db.get_extension").await?;
+        if after.status != 401 {
+            st.violation(
+                "C14/guards/refused_binding_took_effect",
+                json!({"what": "a key the documentation says cannot be bound this way is accepted afterwards",
+                       "attempt": {"method": method, "params": params, "status": r.status},
+                       "then": {"key": key, "database": db, "response": after.describe()}}),
+            );
+        }
+    }
+    // the rightful bindings survived all attempts
+    for (key, db) in [(&k.a, &n.a), (&k.b, &n.b)] {
+        let r = probe(&w.app, Some(key), format!("/{db}"), "db.metadata").await?;
+        if r.status != 200 {
+            st.inconclusive(format!("guards: binding of {db} lost after refused attempts ({})", r.status));
+        }
+    }
+    w.shutdown().await;
+    Ok(())
+}
+
+// ---------------------------------------------------------------------------------------------
+
+fn stored_hash_of_a(cfg_names: &Names, keys: &Keys) -> Option<String> {
+    let rt = new_runtime();
+    rt.block_on(async {
+        let w = World::build(WorldSpec { names: cfg_names.clone(), keys: keys.clone(), bmode: BMode::Keyed, life: Life::Warm }).await;
+        let meta = w.admin_ok(&format!("/{}", cfg_names.primary), "db.metadata", json!({})).await;
+        let h = meta["extensions"]["server:api_keys"][&cfg_names.a].as_str().map(|s| s.to_string());
+        w.shutdown().await;
+        h
+    })
+}
+
+/// Drives one case on a runtime of its own: tasks a case leaves behind die with it.
+macro_rules! drive {
+    ($st:expr, $what:expr, $fut:expr) => {{
+        let rt = new_runtime();
+        let r: Result<(), String> = rt.block_on($fut);
+        if let Err(e) = r {
+            $st.inconclusive(format!("{}: harness could not drive a request: {e}", $what));
+        }
+    }};
+}
+
 fn main() {
-    println!("INCONCLUSIVE property=C14 monitor not built yet");
-    std::process::exit(2);
+    let mut run = Run::from_args(
+        "C14",
+        "exploration",
+        "a matrix request is the tuple (caller, path, encoding, method entry) and every tuple is \
+         distinct and executed; rnw executions are distinct by (lifecycle state, caller, database, \
+         encoding, method); a history is non-trivial when it uses >= 5 operation kinds (distinct \
+         by operation sequence)",
+    );
+    run.assume("keyless mode (no admin key) is open by design (auth.rs rule 1) and is not driven; the worlds always run with an admin key");
+    run.assume("the uniform rejection is compared as status + all response headers + body bytes; no field needed masking (no date / request-id header is produced in-process)");
+    run.assume("own-database reads of a database key are compared across the B-worlds modulo integers in the unix-millisecond range and the clock-dependent statistics fields version/last_saved/check_point/total_*/get_count/search_count (storage metadata writes are rate-limited by wall-clock milliseconds)");
+    run.assume("a read that names a collection whose handle is not loaded performs the lazy open documented in api/collection.rs::open (detached task, may flush): its writes are counted and confined to the database prefix, the reads-never-write oracle measures the read on the loaded handle");
+    run.assume("database <-> storage mapping: every object of database X lives under the prefix `X/` (anda_db: Path::from(db.name()))");
+    run.assume("flush_interval is one day so that the periodic flush task never fires inside a measured window; spawned tasks are drained with yield_now rounds plus one 3 ms sleep per lifecycle block");
+
+    let dir = server_crate_dir(run.args.get("server_src"));
+    let table = match extract_method_table(&dir) {
+        Ok(t) => t,
+        Err(e) => {
+            run.stats.inconclusive(format!("cannot extract the dispatch table from {dir}: {e}"));
+            run.finish();
+        }
+    };
+    // today's table has 8 root and 31 database methods; finding fewer means the extractor lost arms
+    if table.root.len() < 8 || table.db.len() < 31 {
+        run.stats.inconclusive(format!(
+            "dispatch table extraction found {} root / {} database methods (floor 8 / 31)",
+            table.root.len(),
+            table.db.len()
+        ));
+    }
+    let not_built_for: Vec<String> = table
+        .root
+        .iter()
+        .filter(|(n, _)| !KNOWN_ROOT.contains(&n.as_str()))
+        .chain(table.db.iter().filter(|(n, _)| !KNOWN_DB.contains(&n.as_str())))
+        .map(|(n, _)| n.clone())
+        .collect();
+    run.set_extra(
+        "methods_extracted",
+        json!({"source": table.source,
+               "root": table.root.iter().map(|(n, e)| format!("{n}: {}", e.name())).collect::<Vec<_>>(),
+               "database": table.db.iter().map(|(n, e)| format!("{n}: {}", e.name())).collect::<Vec<_>>(),
+               "without_params_builder (sent with {})": not_built_for}),
+    );
+
+    let keys = Keys::default();
+    let tier = run.tier;
+    let pairs: Vec<usize> = tier.pick(vec![(run.seed % 3) as usize], vec![0, 1, 2]);
+    let mut matrix_complete = true;
+    let mut matrix_expected = 0u64;
+    let mut matrix_runs = 0u64;
+    for pair in &pairs {
+        let names = Names::pair(*pair);
+        let Some(hash) = stored_hash_of_a(&names, &keys) else {
+            run.stats.inconclusive("cannot read the stored hash of key A from the primary database's extensions");
+            continue;
+        };
+        let cfg = Cfg { table: table.clone(), names: names.clone(), keys: keys.clone(), callers: callers(&keys, &hash), paths: paths(&names) };
+        let (nc, np) = (cfg.callers.len() as u64, cfg.paths.len() as u64);
+        if run.wants("matrix") {
+            let lives: Vec<Life> = tier.pick(vec![Life::Warm], vec![Life::Warm, Life::Restarted, Life::ReadOnly, Life::CrashedPending]);
+            for life in lives {
+                for p in &cfg.paths {
+                    let e = entries(&cfg.table, &p.class).len() as u64;
+                    // three encodings, the over-limit entry is not sent without a content type
+                    matrix_expected += nc * (3 * e - 1);
+                }
+                let chunks = np.div_ceil(PATH_CHUNK as u64);
+                let label = if life == Life::Warm { format!("matrix_p{pair}") } else { format!("matrix_p{pair}_{life:?}") };
+                let ran = run.parallel(&label, nc * chunks, tier.pick(0.7, 0.12), |case, _rng, st| {
+                    let (ci, chunk) = ((case / chunks) as usize, (case % chunks) as usize);
+                    drive!(st, "matrix", matrix_group(&cfg, life, ci, chunk, st));
+                });
+                if ran != nc * chunks && run.replay.is_none() {
+                    matrix_complete = false;
+                }
+                matrix_runs += 1;
+            }
+            run.parallel(&format!("http_methods_p{pair}"), 1, 0.3, |_c, _rng, st| {
+                drive!(st, "http_methods", http_methods_case(&cfg, st));
+            });
+        }
+        if run.wants("rnw") {
+            run.parallel(&format!("rnw_p{pair}"), ALL_LIVES.len() as u64, 0.4, |case, _rng, st| {
+                drive!(st, "rnw", rnw_case(&cfg, ALL_LIVES[case as usize], st));
+            });
+        }
+        if run.wants("guards") {
+            run.parallel(&format!("guards_p{pair}"), 1, 0.3, |_c, _rng, st| {
+                drive!(st, "guards", guards_case(&cfg, st));
+            });
+        }
+    }
+    if run.wants("hist") {
+        let len = tier.pick(16, 26);
+        run.parallel("hist", tier.pick(192, 30000), 0.9, |case, rng, st| {
+            drive!(st, "hist", hist_case(case, rng, st, len));
+        });
+    }
+
+    if run.wants("matrix") && run.replay.is_none() {
+        let got = run.stats.get("matrix_requests");
+        run.set_extra("matrix", json!({"requests_expected": matrix_expected, "requests_executed": got,
+            "callers": 20, "paths": 20, "encodings": 3, "matrix_runs (name pair x lifecycle state)": matrix_runs}));
+        run.exhaustive = Some(matrix_complete && got == matrix_expected);
+        if got != matrix_expected {
+            run.stats.inconclusive(format!("matrix not enumerated completely: {got} of {matrix_expected} requests"));
+        }
+    }
+    run.floor("oracle_uniform_rejection", 20_000);
+    run.floor("oracle_no_effect", 20_000);
+    run.floor("oracle_path_only", 1_000);
+    run.floor("oracle_confinement", 200);
+    run.floor("oracle_read_wrote_nothing", 400);
+    run.floor("oracle_unknown_method_no_effect", 100);
+    run.floor("oracle_full_admin_snapshot", 400);
+    run.floor("relational_tuples_compared", 20_000);
+    run.floor("relational_own_reads_compared", 60);
+    run.floor("executed:admin", 300);
+    run.floor("executed:key_a", 100);
+    run.floor("executed:key_b", 50);
+    run.floor("world_rebuilds", 100);
+    run.floor("http_method_requests", 1_000);
+    for (m, _) in table.root.iter().filter(|(m, _)| KNOWN_ROOT.contains(&m.as_str())) {
+        run.floor(&format!("executed_method:{m}"), 1);
+    }
+    for (m, _) in table.db.iter().filter(|(m, _)| KNOWN_DB.contains(&m.as_str())) {
+        run.floor(&format!("executed_method:{m}"), 1);
+    }
+    run.floor("rnw_executions", 1_200);
+    run.floor("rnw_cold_open_reads", 6);
+    run.floor("rnw_caller:admin", 500);
+    run.floor("rnw_caller:key_a", 150);
+    run.floor("oracle_no_late_write", 7);
+    for life in ALL_LIVES {
+        run.floor(&format!("rnw_life:{life:?}"), 1);
+    }
+    for (m, e) in table.root.iter().chain(table.db.iter()) {
+        if *e == Effect::Read {
+            run.floor(&format!("rnw:{m}"), 14);
+        }
+    }
+    run.floor("hist_probes", 20_000);
+    run.floor("hist_expected_accept", 2_000);
+    run.floor("hist_revoked_key_on_own_db", 300);
+    run.floor("hist_relational_tuples", 5_000);
+    for op in ["Create", "Close", "Open", "Connect", "SetKey", "SetKeyGenerated", "RemoveKey", "AddDoc", "Restart", "CrashRestart"] {
+        run.floor(&format!("hist_op:{op}"), 20);
+    }
+    run.floor("guard_binding_attempts", 7);
+    run.floor("guard_restart_probes", 7);
+    run.finish();
 }
